@@ -912,6 +912,22 @@ func (r *fcgiRig) judge() {
 				c.Violate("C13/header-differs", h[0], "request %d: response header %s: responder sent %q, client got %q", q.id, h[0], h[1], got)
 			}
 		}
+		// ... and no header the responder did not send (framing, Date and Server of the front server,
+		// and a sniffed Content-Type excepted; "Status" is a CGI field, not a response header)
+		sent := map[string]bool{}
+		for _, h := range sc.hdrs {
+			sent[http.CanonicalHeaderKey(h[0])] = true
+		}
+		var extra []string
+		for k := range resp.Header {
+			if !sent[k] && !respAllowed[k] {
+				extra = append(extra, k)
+			}
+		}
+		sort.Strings(extra)
+		for _, k := range extra {
+			c.Violate("C13/header-invented", k, "request %d (%s %s): the client received header %s: %q, which the responder did not send", q.id, q.method, q.path, k, resp.Header.Values(k))
+		}
 		if q.method != "HEAD" && !bytes.Equal(resp.Body, sc.body) {
 			c.Violate("C13/body-differs", fmt.Sprintf("cuts=%d", len(sc.cuts)), "request %d: responder body %d bytes, client got %d bytes (first difference at %d; record cuts %v, pads %v)", q.id, len(sc.body), len(resp.Body), firstDiff(resp.Body, sc.body), sc.cuts, sc.pads)
 		}
